@@ -336,6 +336,58 @@ def r3(ctx, rep):
     rep.instance(R3, ok=not probs, nontrivial='_complete_frames')
     for p in probs:
         rep.finding(R3, f'C08.R3/_complete_frames/{p[:40]}', m.loc(MODELS, cf), 'BaseModel._complete_frames', p)
+    cpl_finish_fold(ctx, rep, R3)
+
+
+def cpl_finish_fold(ctx, rep, R3):
+    """Classical family: CPL.Model.finish folded -- identity/existence completion reaches every world,
+    including worlds known only through the access relation, before the model is marked finished."""
+    import collections
+    m = ctx.m
+    CPL = 'pytableaux.logics.cpl'
+    fn = m.func(CPL, 'Model.finish')
+    rep.consult(m.loc(CPL, fn) + ' cpl.Model.finish')
+    from collections import deque
+    for worlds_with_frames, worlds_in_R in (({0}, {0, 1}), ({0, 2}, {0, 2}), ({0}, {0}), ({0, 1}, {0, 1, 5})):
+        log = []
+
+        def mkframe():
+            return Obj('frame', predicates=collections.OrderedDict(P='interp'))
+        frames = collections.OrderedDict((w, mkframe()) for w in sorted(worlds_with_frames))
+        mdl = Obj('model', frames=frames, R={w: set() for w in worlds_in_R})
+
+        def complete():
+            log.append('complete_frames')
+            for w in mdl.R:
+                frames.setdefault(w, mkframe())
+        mdl._check_not_finished = lambda: None
+        mdl._complete_frames = complete
+        mdl._agument_extension_with_identicals = lambda pred, w: log.append(('identicals', pred, w))
+        mdl._ensure_self_identity = lambda w: log.append(('identity', w))
+        mdl._ensure_self_existence = lambda w: log.append(('existence', w))
+        sup = Obj('super', finish=lambda: (log.append('base-finish'), mdl)[1])
+        it = Interp(dict(deque=deque, super=lambda: sup), where='logics/cpl.py Model.finish')
+        r = it.safe(fn, [mdl])
+        allw = sorted(worlds_with_frames | worlds_in_R)
+        got_id = sorted(x[1] for x in log if isinstance(x, tuple) and x[0] == 'identity')
+        got_ex = sorted(x[1] for x in log if isinstance(x, tuple) and x[0] == 'existence')
+        got_au = sorted({x[2] for x in log if isinstance(x, tuple) and x[0] == 'identicals'})
+        ok = r is mdl and got_id == allw and got_ex == allw and got_au == allw and log and log[-1] == 'base-finish'
+        case = f'frames at worlds {sorted(worlds_with_frames)}, access relation mentions {sorted(worlds_in_R)}'
+        rep.instance(R3, ok=ok, sample=dict(fold='cpl.Model.finish', case=case), nontrivial=('cpl.finish', case))
+        if not ok:
+            rep.finding(R3, f'C08.R3/cpl.Model.finish/{case}', m.loc(CPL, fn), 'cpl.Model.finish',
+                        f'{case}: self-identity ensured at {got_id}, self-existence at {got_ex}, identity-respecting extensions at {got_au}; '
+                        f'expected all of {allw} before the base finish (calls: {[x if isinstance(x, str) else x[0] for x in log]})')
+    # every classical-family model uses this finish
+    for lg in ctx.lgs:
+        from .c04 import designation_family
+        if designation_family(ctx, lg) == 'negation':
+            f_, owner = m.method(lg.modelcls, 'finish')
+            ok = owner is not None and owner.module == CPL
+            rep.instance(R3, ok=ok, nontrivial=(lg.name, 'cpl-finish'))
+            if not ok:
+                rep.finding(R3, f'C08.R3/{lg.name}/finish', m.relfile(lg.module), f'{lg.name}.Model.finish', 'classical-family model does not use cpl.Model.finish')
 
 
 def r4(ctx, rep):
